@@ -432,7 +432,8 @@ class Emitter:
             return False
         event = self.events[0]
         return (isinstance(event, ScalarEvent) and event.anchor is None
-                and event.tag is None and event.implicit and event.value == '')
+                and (event.tag is None or event.implicit[0])
+                and event.value == '')
 
     def check_simple_key(self):
         length = 0
